@@ -7,6 +7,7 @@ older one).
 -/
 import VaxisModel.Model.ImageFit
 import VaxisModel.Spec.Images
+import VaxisModel.Model.Blocks
 
 namespace VaxisModel.Lemmas.ImageFit
 open VaxisModel.Model.ImageFit VaxisModel.Spec.Images VaxisModel.Gen.ImageConsts
@@ -181,5 +182,62 @@ theorem aspect_core (pw ph a b X Y : Nat) (hb : 0 < b) (h1 : pw * b ≤ a * X) (
     _ = a * Y * X := Nat.mul_right_comm ..
     _ ≤ (ph + 1) * b * X := Nat.mul_le_mul_right _ h4
     _ = (ph * X + X) * b := by rw [Nat.mul_right_comm, Nat.add_mul, Nat.one_mul]
+
+/-! ### Pixels -/
+
+section pixels
+open VaxisModel.Model.Blocks
+
+theorem toRGB_of_ne (c : C16) (h : c.a ≠ 0) :
+    toRGB c = ⟨u8 (u32 (c.r * 255) / c.a), u8 (u32 (c.g * 255) / c.a), u8 (u32 (c.b * 255) / c.a), u8 (c.a / 256)⟩ := by
+  simp [toRGB, h]
+
+theorem toRGB_of_zero (c : C16) (h : c.a = 0) : toRGB c = ⟨u8 c.r, u8 c.g, u8 c.b, 0⟩ := by
+  simp [toRGB, h]
+
+theorem unpremul_opaque' (c : Nat) (h : c < 256) : u8 (u32 (c * 257 * 255) / 65535) = c := by
+  have h1 : c * 257 * 255 % 4294967296 = c * 65535 := by
+    rw [Nat.mod_eq_of_lt (by omega)]; omega
+  show c * 257 * 255 % 4294967296 / 65535 % 256 = c
+  rw [h1, Nat.mul_div_cancel _ (by decide), Nat.mod_eq_of_lt h]
+
+theorem unpremul_opaque (c : Nat) (h : c < 256) : u8 (u32 (c * 257 * 255 / 255 * 255) / 65535) = c := by
+  rw [Nat.mul_div_cancel _ (by decide)]
+  exact unpremul_opaque' c h
+
+/-- `RGBColor` (shifts and ors) is the direct colour `0x02RRGGBB` for 8-bit channels. -/
+theorem rgbColor_eq (r g b : Nat) (hr : r < 256) (hg : g < 256) (hb : b < 256) :
+    rgbColor r g b = directColor r g b := by
+  unfold rgbColor directColor
+  have hs : rgbShift = 25 := by decide
+  rw [hs]
+  have h1 : g <<< 8 ||| b = g <<< 8 + b := (Nat.shiftLeft_add_eq_or_of_lt (by omega) g).symm
+  have h2 : r <<< 16 ||| (g <<< 8 + b) = r <<< 16 + (g <<< 8 + b) :=
+    (Nat.shiftLeft_add_eq_or_of_lt (by rw [Nat.shiftLeft_eq]; omega) r).symm
+  have h3 : (1 <<< 25) ||| (r <<< 16 + (g <<< 8 + b)) = 1 <<< 25 + (r <<< 16 + (g <<< 8 + b)) :=
+    (Nat.shiftLeft_add_eq_or_of_lt (by rw [Nat.shiftLeft_eq, Nat.shiftLeft_eq]; omega) 1).symm
+  rw [Nat.or_assoc (r <<< 16) (g <<< 8) b, h1, h2, Nat.or_comm, h3]
+  simp only [Nat.shiftLeft_eq]
+  omega
+
+/-- Bool form of "translucent within one", over all 8-bit (alpha, channel) pairs. -/
+def withinOneAll : Bool := (List.range 256).all fun a => (List.range 256).all fun c =>
+  a == 0 || (let c' := (toRGB ⟨c * 257 * a / 255, 0, 0, a * 257⟩).r; c' ≤ c && c ≤ c' + 1)
+
+set_option maxRecDepth 100000 in
+theorem withinOneAll_true : withinOneAll = true := by decide +kernel
+
+theorem toRGB_within_one (c a : Nat) (hc : c < 256) (ha : a < 256) (ha0 : 0 < a) :
+    (toRGB ⟨c * 257 * a / 255, 0, 0, a * 257⟩).r ≤ c ∧ c ≤ (toRGB ⟨c * 257 * a / 255, 0, 0, a * 257⟩).r + 1 := by
+  have h := withinOneAll_true
+  unfold withinOneAll at h
+  rw [List.all_eq_true] at h
+  have h1 := h a (List.mem_range.mpr ha)
+  rw [List.all_eq_true] at h1
+  have h2 := h1 c (List.mem_range.mpr hc)
+  have ha' : (a == 0) = false := by simp; omega
+  simpa [ha'] using h2
+
+end pixels
 
 end VaxisModel.Lemmas.ImageFit
